@@ -15,6 +15,7 @@ From KV Require Import Compaction.
 From KV Require Import Txn.
 From KV Require Import TxnAtomic.
 From KV Require Import Service.
+From KV Require Import Repl.
 Extraction Language OCaml.
 (* Coq's String module (identifiers of the C07 lock table) must not shadow OCaml's: it is emitted as String0 *)
 Extraction Blacklist String.
@@ -52,4 +53,6 @@ Separate Extraction
   Txn.ser_check Txn.ser_why
   TxnAtomic.atomic_check TxnAtomic.first_reject TxnAtomic.crun TxnAtomic.twrites TxnAtomic.cinit
   Service.service_step Service.sstep Service.srun Service.sinit Service.code_limits Service.req_size
+  Repl.new_replica Repl.process Repl.stream_start Repl.acknowledge_up_to Repl.seg Repl.pick Repl.poll
+  Repl.view Repl.primary_view Repl.deserialize Repl.to_proto
 .
